@@ -610,3 +610,21 @@ def sources_of(finfo, expr, graph=None):
           exprs.append(d)
           work.append(d)
   return names, exprs
+
+
+def copy_class(finfo, name):
+  """Names connected to `name` through plain name-to-name copies in the
+  function (`a = b`): the local an inlined helper used, its result variable
+  and the caller's local are one value to a rule."""
+  cls = {name}
+  pairs = [(n.targets[0].id, n.value.id) for n in walk_no_nested(finfo.node)
+           if isinstance(n, ast.Assign) and len(n.targets) == 1 and isinstance(
+               n.targets[0], ast.Name) and isinstance(n.value, ast.Name)]
+  changed = True
+  while changed:
+    changed = False
+    for a, b in pairs:
+      if (a in cls) != (b in cls):
+        cls.update((a, b))
+        changed = True
+  return cls
